@@ -12,7 +12,7 @@ def execute(case):
     import gcmpy
     edges = [tuple(e) for e in case["edges"]]
     tr = {"case": case, "edges": [list(e) for e in edges], "m0": case["m0"], "cover": [], "has_edges_after": False,
-          "raised": "", "timeout": False, "steps_known": False, "steps": [], "arities": [],
+          "raised": "", "timeout": False, "steps_known": False, "steps": [], "arities": [], "cover_again": [],
           "check_isolated": len({v for e in edges for v in e}) <= 12}
     g = gcmpy.EECC()
     for e in edges:
@@ -66,6 +66,16 @@ def execute(case):
         tr["raised"] = "cover is not a list of vertex lists"
         return tr
     tr["has_edges_after"] = bool(g.has_edges())
+    tr["cover_again"] = tr["cover"]
+    if case["rng"][0] == "seed":
+        # the returned cover belongs to the caller: covering the same edges once more on the same object must not change it
+        try:
+            for e in edges:
+                g.add_edge(e)
+            Oracle().run_seeded(case["rng"][1] + 1, g.get_EECC)
+            tr["cover_again"] = [[int(v) for v in c] for c in cover]
+        except Exception:
+            pass
     if steps and small and all(s["ec"] for s in steps[1:]):
         tr["steps_known"] = True
         tr["steps"] = steps
